@@ -153,4 +153,985 @@ theorem hmacCode_tail (H : Bytes → Bytes) (B : Nat) (k a t : Bytes) (h : k.len
     exact List.take_of_length_le (by omega)
   simp only [hmacCode, e1, e2]
 
+/-! ## QDataStream reads of what encode wrote -/
+
+theorem u8n (n : Nat) : (UInt8.ofNat n).toNat = n % 256 := by simp [UInt8.toNat_ofNat']
+
+theorem rdU16_put (x : Nat) (r : Bytes) (h : x < 65536) : rdU16 (putU16 x ++ r) = (x, r) := by
+  simp only [putU16, rdU16, List.cons_append, List.nil_append, u8n]
+  congr 1; omega
+
+theorem rdU32_put (x : Nat) (r : Bytes) (h : x < 4294967296) : rdU32 (putU32 x ++ r) = (x, r) := by
+  simp only [putU32, rdU32, List.cons_append, List.nil_append, u8n]
+  congr 1; omega
+
+theorem rdU8_cons (x : Nat) (r : Bytes) (h : x < 256) : rdU8 (UInt8.ofNat x :: r) = (x, r) := by
+  simp only [rdU8, u8n]; congr 1; omega
+
+theorem rdRaw_append (bs r : Bytes) : rdRaw bs.length (bs ++ r) = (bs, r) := by
+  simp [rdRaw, zeros]
+
+theorem rdResize_append (old bs r : Bytes) : rdResize old bs.length (bs ++ r) = (bs, r) := by
+  simp [rdResize, zeros]
+
+theorem putU16_len (n : Nat) : (putU16 n).length = 2 := rfl
+theorem putU32_len (n : Nat) : (putU32 n).length = 4 := rfl
+theorem zeros_len (n : Nat) : (zeros n).length = n := by simp [zeros]
+theorem padded_len (bs : Bytes) : (padded bs).length = bs.length + pad4 bs.length := by simp [padded, zeros]
+
+/-! ## one turn of the decode loop -/
+
+theorem loop_done (H : Bytes → Bytes) (buf key : Bytes) (len done : Nat) (s : Bytes) (m : Msg) (mi : Option Nat)
+    (h : ¬ done < len) : loop H buf key len done s m mi = some ⟨m, mi, none⟩ := by
+  rw [loop]; simp [h]
+
+/-- the loop in front of a complete attribute (`ty`, `aLen`, value and padding `val`) that `attrStep` accepts -/
+theorem loop_tlv (H : Bytes → Bytes) (buf key : Bytes) (len done ty aLen : Nat) (val rest : Bytes) (m m' : Msg)
+    (hty : ty < 65536) (hal : aLen < 65536) (hlt : done < len)
+    (hstep : attrStep H buf key done ty aLen (val ++ rest) m none = .next (val.drop aLen ++ rest) m' none)
+    (hval : val.length = aLen + pad4 aLen) :
+    loop H buf key len done (putU16 ty ++ (putU16 aLen ++ (val ++ rest))) m none
+      = loop H buf key len (done + (4 + aLen + pad4 aLen)) rest m' none := by
+  rw [loop]
+  simp only [hlt, dite_true, rdU16_put _ _ hty, rdU16_put _ _ hal, Option.isSome_none, Bool.false_eq_true, false_and,
+    if_false, hstep]
+  congr 1
+  rw [← List.drop_append_of_le_length (by omega), List.drop_drop]
+  have : aLen + pad4 aLen = val.length := by omega
+  rw [this]; simp
+
+
+/-- `seg`, standing at the front of the stream with `after_integrity` unset, is consumed by the loop (whatever the
+packet, key, counter and rest are), turning message `x` into `y` -/
+def StepsTo (seg : Bytes) (x y : Msg) : Prop :=
+  ∀ (H : Bytes → Bytes) (buf key : Bytes) (len done : Nat) (rest : Bytes), len < 65536 →
+    done + (seg ++ rest).length = len →
+    loop H buf key len done (seg ++ rest) x none = loop H buf key len (done + seg.length) rest y none
+
+theorem StepsTo.nil (x : Msg) : StepsTo [] x x := by
+  intro H buf key len done rest _ _; simp
+
+theorem StepsTo.append {s1 s2 : Bytes} {x y z : Msg} (h1 : StepsTo s1 x y) (h2 : StepsTo s2 y z) :
+    StepsTo (s1 ++ s2) x z := by
+  intro H buf key len done rest hl hinv
+  rw [List.append_assoc, h1 H buf key len done (s2 ++ rest) hl (by simpa [List.append_assoc] using hinv),
+    h2 H buf key len (done + s1.length) rest hl (by simp [List.length_append] at hinv ⊢; omega)]
+  simp [List.length_append, Nat.add_assoc]
+
+theorem drop4_putU32 (v : Nat) : (putU32 v).drop 4 = [] := rfl
+theorem drop2_putU16 (v : Nat) : (putU16 v).drop 2 = [] := rfl
+theorem pad4_lt (n : Nat) : pad4 n < 4 := by unfold pad4; omega
+
+
+attribute [local simp] Stun.priority Stun.errorCode Stun.useCandidate Stun.channelNumber Stun.dataAttr Stun.lifetime
+  Stun.nonce Stun.realm Stun.requestedTransport Stun.reservationToken Stun.software Stun.username Stun.mappedAddress
+  Stun.changeRequest Stun.sourceAddress Stun.changedAddress Stun.otherAddress Stun.xorMappedAddress Stun.xorPeerAddress
+  Stun.xorRelayedAddress Stun.messageIntegrity Stun.fingerprint Stun.iceControlling Stun.iceControlled
+  Stun.familyIPv4 Stun.familyIPv6
+  stepU32 stepError stepFlag stepChannel stepTransport stepBlob stepFixed8 stepStr stepAddr
+
+theorem pad4_add4 (n : Nat) : pad4 (n + 4) = pad4 n := by unfold pad4; omega
+
+/-- finishing step shared by the attribute lemmas: rewrite with `loop_tlv`, then compare the counters -/
+theorem steps_of_tlv (ty aLen : Nat) (val : Bytes) (x y : Msg) (hty : ty < 65536)
+    (hval : val.length = aLen + pad4 aLen)
+    (hstep : ∀ (H : Bytes → Bytes) (buf key : Bytes) (done : Nat) (rest : Bytes), aLen < 65536 →
+      attrStep H buf key done ty aLen (val ++ rest) x none = .next (val.drop aLen ++ rest) y none) :
+    StepsTo (putU16 ty ++ putU16 aLen ++ val) x y := by
+  intro H buf key len done rest hl hinv
+  have hlen : aLen < 65536 := by
+    simp only [List.length_append, putU16_len] at hinv; omega
+  simp only [List.append_assoc] at hinv ⊢
+  rw [loop_tlv H buf key len done ty aLen val rest x y hty hlen
+    (by simp only [List.length_append, putU16_len] at hinv; omega) (hstep H buf key done rest hlen) hval]
+  congr 1
+  simp only [List.length_append, putU16_len]; omega
+
+/-! ### 32-bit, 16-bit and 8-bit attributes, USE-CANDIDATE -/
+
+theorem steps_priority (x : Msg) (o : Option Nat) (ho : optAll o (· < 4294967296)) (hx : x.priority = none) :
+    StepsTo (encOpt o (fun v => putU16 Stun.priority ++ putU16 4 ++ putU32 v)) x { x with priority := o } := by
+  cases o with
+  | none => simp only [encOpt]; rw [← hx]; exact StepsTo.nil x
+  | some v =>
+    exact steps_of_tlv _ 4 (putU32 v) _ _ (by decide) rfl
+      (by intro H buf key done rest _; simp [attrStep, rdU32_put _ _ ho, drop4_putU32])
+
+theorem steps_lifetime (x : Msg) (o : Option Nat) (ho : optAll o (· < 4294967296)) (hx : x.lifetime = none) :
+    StepsTo (encOpt o (fun v => putU16 Stun.lifetime ++ putU16 4 ++ putU32 v)) x { x with lifetime := o } := by
+  cases o with
+  | none => simp only [encOpt]; rw [← hx]; exact StepsTo.nil x
+  | some v =>
+    exact steps_of_tlv _ 4 (putU32 v) _ _ (by decide) rfl
+      (by intro H buf key done rest _; simp [attrStep, rdU32_put _ _ ho, drop4_putU32])
+
+theorem steps_changeRequest (x : Msg) (o : Option Nat) (ho : optAll o (· < 4294967296)) (hx : x.changeRequest = none) :
+    StepsTo (encOpt o (fun v => putU16 Stun.changeRequest ++ putU16 4 ++ putU32 v)) x { x with changeRequest := o } := by
+  cases o with
+  | none => simp only [encOpt]; rw [← hx]; exact StepsTo.nil x
+  | some v =>
+    exact steps_of_tlv _ 4 (putU32 v) _ _ (by decide) rfl
+      (by intro H buf key done rest _; simp [attrStep, rdU32_put _ _ ho, drop4_putU32])
+
+theorem steps_channelNumber (x : Msg) (o : Option Nat) (ho : optAll o (· < 65536)) (hx : x.channelNumber = none) :
+    StepsTo (encOpt o (fun v => putU16 Stun.channelNumber ++ putU16 4 ++ putU16 v ++ putU16 0)) x
+      { x with channelNumber := o } := by
+  cases o with
+  | none => simp only [encOpt]; rw [← hx]; exact StepsTo.nil x
+  | some v =>
+    have h := steps_of_tlv Stun.channelNumber 4 (putU16 v ++ putU16 0) x { x with channelNumber := some v } (by decide) rfl
+      (by intro H buf key done rest _
+          simp only [List.append_assoc]
+          simp [attrStep, rdU16_put _ _ ho]
+          simp [putU16])
+    simpa only [encOpt, List.append_assoc] using h
+
+theorem steps_requestedTransport (x : Msg) (o : Option Nat) (ho : optAll o (· < 256)) (hx : x.requestedTransport = none) :
+    StepsTo (encOpt o (fun v => putU16 Stun.requestedTransport ++ putU16 4 ++ [UInt8.ofNat v, 0, 0, 0])) x
+      { x with requestedTransport := o } := by
+  cases o with
+  | none => simp only [encOpt]; rw [← hx]; exact StepsTo.nil x
+  | some v =>
+    exact steps_of_tlv _ 4 [UInt8.ofNat v, 0, 0, 0] _ _ (by decide) rfl
+      (by intro H buf key done rest _; simp [attrStep, rdU8_cons _ _ ho])
+
+theorem steps_useCandidate (x : Msg) (b : Bool) (hx : x.useCandidate = false) :
+    StepsTo (if b then putU16 Stun.useCandidate ++ putU16 0 else []) x { x with useCandidate := b } := by
+  cases b with
+  | false => simp only [Bool.false_eq_true, if_false]; rw [← hx]; exact StepsTo.nil x
+  | true =>
+    have h := steps_of_tlv Stun.useCandidate 0 [] x { x with useCandidate := true } (by decide) rfl
+      (by intro H buf key done rest _; simp [attrStep])
+    simpa using h
+
+/-! ### byte strings kept as they are: DATA, NONCE, RESERVATION-TOKEN -/
+
+theorem steps_data (x : Msg) (o : Option Bytes) (hx : x.data = none) :
+    StepsTo (encOpt o (encBlob Stun.dataAttr)) x { x with data := o } := by
+  cases o with
+  | none => simp only [encOpt]; rw [← hx]; exact StepsTo.nil x
+  | some bs =>
+    exact steps_of_tlv _ bs.length (padded bs) _ _ (by decide) (padded_len bs)
+      (by intro H buf key done rest _; simp [attrStep, padded, hx, List.append_assoc, rdResize_append])
+
+theorem steps_nonce (x : Msg) (o : Option Bytes) (hx : x.nonce = none) :
+    StepsTo (encOpt o (encBlob Stun.nonce)) x { x with nonce := o } := by
+  cases o with
+  | none => simp only [encOpt]; rw [← hx]; exact StepsTo.nil x
+  | some bs =>
+    exact steps_of_tlv _ bs.length (padded bs) _ _ (by decide) (padded_len bs)
+      (by intro H buf key done rest _; simp [attrStep, padded, hx, List.append_assoc, rdResize_append])
+
+theorem steps_reservationToken (x : Msg) (o : Option Bytes) (ho : optAll o (·.length = 8)) (hx : x.reservationToken = none) :
+    StepsTo (encOpt o (fun v => putU16 Stun.reservationToken ++ putU16 v.length ++ v)) x { x with reservationToken := o } := by
+  cases o with
+  | none => simp only [encOpt]; rw [← hx]; exact StepsTo.nil x
+  | some bs =>
+    have h8 : bs.length = 8 := ho
+    exact steps_of_tlv _ bs.length bs _ _ (by decide) (by rw [h8]; rfl)
+      (by intro H buf key done rest _
+          have e := rdResize_append [] bs rest
+          rw [h8] at e
+          simp [attrStep, h8, hx, e])
+
+/-! ### strings: REALM, SOFTWARE, USERNAME come back through `QString::fromUtf8` -/
+
+theorem steps_realm (x : Msg) (o : Option Bytes) (hx : x.realm = none) :
+    StepsTo (encOpt o (encBlob Stun.realm)) x { x with realm := o.map qtStr } := by
+  cases o with
+  | none => simp only [encOpt, Option.map_none]; rw [← hx]; exact StepsTo.nil x
+  | some bs =>
+    exact steps_of_tlv _ bs.length (padded bs) _ _ (by decide) (padded_len bs)
+      (by intro H buf key done rest _; simp [attrStep, padded, List.append_assoc, rdRaw_append])
+
+theorem steps_software (x : Msg) (o : Option Bytes) (hx : x.software = none) :
+    StepsTo (encOpt o (encBlob Stun.software)) x { x with software := o.map qtStr } := by
+  cases o with
+  | none => simp only [encOpt, Option.map_none]; rw [← hx]; exact StepsTo.nil x
+  | some bs =>
+    exact steps_of_tlv _ bs.length (padded bs) _ _ (by decide) (padded_len bs)
+      (by intro H buf key done rest _; simp [attrStep, padded, List.append_assoc, rdRaw_append])
+
+theorem steps_username (x : Msg) (o : Option Bytes) (hx : x.username = none) :
+    StepsTo (encOpt o (encBlob Stun.username)) x { x with username := o.map qtStr } := by
+  cases o with
+  | none => simp only [encOpt, Option.map_none]; rw [← hx]; exact StepsTo.nil x
+  | some bs =>
+    exact steps_of_tlv _ bs.length (padded bs) _ _ (by decide) (padded_len bs)
+      (by intro H buf key done rest _; simp [attrStep, padded, List.append_assoc, rdRaw_append])
+
+
+/-! ### ERROR-CODE -/
+
+theorem qtStr_nil : qtStr [] = [] := by decide
+
+theorem steps_error (x : Msg) (m : Msg) (h0 : 0 ≤ m.errorCode) (h1 : m.errorCode < 25600)
+    (hn : m.errorCode = 0 → m.errorPhrase = []) (hx : x.errorCode = 0) (hxp : x.errorPhrase = []) :
+    StepsTo (encError m) x { x with errorCode := m.errorCode, errorPhrase := qtStr m.errorPhrase } := by
+  unfold encError
+  split
+  · rename_i hz
+    have e : ({ x with errorCode := m.errorCode, errorPhrase := qtStr m.errorPhrase } : Msg) = x := by
+      rw [hn hz, hz, qtStr_nil, ← hx, ← hxp]
+    rw [e]; exact StepsTo.nil x
+  · obtain ⟨n, hn'⟩ := Int.eq_ofNat_of_zero_le h0
+    have hnlt : n < 25600 := by omega
+    have ehi : errHigh m.errorCode = n / 100 := by
+      rw [hn']; unfold errHigh
+      rw [Int.natCast_tdiv_eq_ediv]; omega
+    have elo : errLow m.errorCode = n % 100 := by
+      rw [hn']; unfold errLow
+      rw [Int.tmod_eq_emod_of_nonneg (by omega)]; omega
+    have h := steps_of_tlv Stun.errorCode (m.errorPhrase.length + 4)
+      ([0, 0, UInt8.ofNat (errHigh m.errorCode), UInt8.ofNat (errLow m.errorCode)] ++ padded m.errorPhrase) x
+      { x with errorCode := m.errorCode, errorPhrase := qtStr m.errorPhrase } (by decide)
+      (by simp only [List.length_append, padded_len, pad4_add4, List.length_cons, List.length_nil]; omega)
+      (by intro H buf key done rest _
+          have e8a := rdU8_cons (n / 100) (UInt8.ofNat (n % 100) :: (m.errorPhrase ++ (zeros (pad4 m.errorPhrase.length) ++ rest))) (by omega)
+          have e8b := rdU8_cons (n % 100) (m.errorPhrase ++ (zeros (pad4 m.errorPhrase.length) ++ rest)) (by omega)
+          have hdrop : List.drop (m.errorPhrase.length + 4)
+              (0 :: 0 :: UInt8.ofNat (n / 100) :: UInt8.ofNat (n % 100) :: (m.errorPhrase ++ zeros (pad4 m.errorPhrase.length)))
+              = zeros (pad4 m.errorPhrase.length) := by
+            simp
+          have hge : ¬ (m.errorPhrase.length + 4 < 4) := by omega
+          have hcode2 : ((n : Int) / 100 * 100 + (n : Int) % 100) = m.errorCode := by rw [hn']; omega
+          simp [attrStep, rdU16, ehi, elo, e8a, e8b, padded, List.append_assoc, rdRaw_append, hcode2, hdrop, hge])
+    simpa only [List.append_assoc] using h
+
+/-! ### ICE-CONTROLLING / ICE-CONTROLLED -/
+
+theorem steps_ice (x : Msg) (m : Msg) (hc : m.iceControlling = [] ∨ m.iceControlling.length = 8)
+    (hd : m.iceControlled = [] ∨ (m.iceControlled.length = 8 ∧ m.iceControlling = []))
+    (hx : x.iceControlling = []) (hxd : x.iceControlled = []) :
+    StepsTo (encIce m) x { x with iceControlling := m.iceControlling, iceControlled := m.iceControlled } := by
+  unfold encIce
+  split
+  · rename_i hne
+    have h8 : m.iceControlling.length = 8 := by
+      rcases hc with h | h
+      · exact absurd h hne
+      · exact h
+    have hd0 : m.iceControlled = [] := by
+      rcases hd with h | h
+      · exact h
+      · exact absurd h.2 hne
+    have e := rdResize_append x.iceControlling m.iceControlling
+    rw [h8] at e
+    have h := steps_of_tlv Stun.iceControlling m.iceControlling.length m.iceControlling x
+      { x with iceControlling := m.iceControlling, iceControlled := m.iceControlled } (by decide) (by rw [h8]; rfl)
+      (by intro H buf key done rest _
+          simp [attrStep, h8, e, hd0, hxd])
+    exact h
+  · rename_i hc0
+    have hc0 : m.iceControlling = [] := by simpa using hc0
+    split
+    · rename_i hne
+      have h8 : m.iceControlled.length = 8 := by
+        rcases hd with h | h
+        · exact absurd h hne
+        · exact h.1
+      have e := rdResize_append x.iceControlled m.iceControlled
+      rw [h8] at e
+      have h := steps_of_tlv Stun.iceControlled m.iceControlled.length m.iceControlled x
+        { x with iceControlling := m.iceControlling, iceControlled := m.iceControlled } (by decide) (by rw [h8]; rfl)
+        (by intro H buf key done rest _
+            simp [attrStep, h8, e, hc0, hx])
+      exact h
+    · rename_i hd0
+      have hd0 : m.iceControlled = [] := by simpa using hd0
+      have e : ({ x with iceControlling := m.iceControlling, iceControlled := m.iceControlled } : Msg) = x := by
+        rw [hc0, hd0]; cases x; simp only at hx hxd; subst hx hxd; rfl
+      rw [e]; exact StepsTo.nil x
+
+
+/-! ### addresses -/
+
+theorem portMask_val : portMask = 0x2112 := by decide
+
+theorem xor_cancel_nat (a b : Nat) : (a ^^^ b) ^^^ b = a := by
+  rw [Nat.xor_assoc, Nat.xor_self, Nat.xor_zero]
+
+theorem xor_port_lt (p : Nat) (h : p < 65536) : p ^^^ portMask < 65536 := by
+  rw [portMask_val]
+  exact Nat.xor_lt_two_pow (n := 16) h (by decide)
+
+theorem xor_ip_lt (p : Nat) (h : p < 4294967296) : p ^^^ Stun.magicCookie < 4294967296 :=
+  Nat.xor_lt_two_pow (n := 32) h (by decide)
+
+/-- value bytes of an address attribute -/
+def addrVal (a : Addr) (xid : Option Bytes) : Bytes :=
+  match a.host with
+  | .null => []
+  | .v4 ip =>
+    [0, UInt8.ofNat Stun.familyIPv4] ++
+      (match xid with
+       | none => putU16 a.port ++ putU32 ip
+       | some _ => putU16 (a.port ^^^ portMask) ++ putU32 (ip ^^^ Stun.magicCookie))
+  | .v6 bs =>
+    [0, UInt8.ofNat Stun.familyIPv6] ++
+      (match xid with
+       | none => putU16 a.port ++ bs
+       | some id => putU16 (a.port ^^^ portMask) ++ xorBytes bs (xorPad id))
+
+def addrLen (a : Addr) : Nat :=
+  match a.host with
+  | .null => 0
+  | .v4 _ => 8
+  | .v6 _ => 20
+
+theorem xorPad_len (id : Bytes) (h : id.length = 12) : (xorPad id).length = 16 := by
+  simp [xorPad, putU32_len, h]
+
+theorem addrVal_len (a : Addr) (xid : Option Bytes) (hwf : a.WF) (hid : ∀ id, xid = some id → id.length = 12) :
+    (addrVal a xid).length = addrLen a := by
+  unfold addrVal addrLen
+  unfold Addr.WF at hwf
+  cases hh : a.host with
+  | null => rfl
+  | v4 ip => cases xid <;> simp [putU16_len, putU32_len]
+  | v6 bs =>
+    rw [hh] at hwf
+    cases xid with
+    | none => simp [putU16_len, hwf.2.2]
+    | some id => simp [putU16_len, xorBytes_length, xorPad_len id (hid id rfl), hwf.2.2]
+
+/-- `decodeAddress` reads back what `encodeAddress` wrote -/
+theorem decAddr_addrVal (a : Addr) (xid : Option Bytes) (rest : Bytes) (hwf : a.WF) (hp : a.port ≠ 0)
+    (hid : ∀ id, xid = some id → id.length = 12) :
+    decAddr (addrLen a) (addrVal a xid ++ rest) xid = some (a, rest) := by
+  unfold Addr.WF at hwf
+  obtain ⟨host, port⟩ := a
+  cases host with
+  | null => exact absurd hwf hp
+  | v4 ip =>
+    simp only at hwf
+    cases xid with
+    | none =>
+      simp [decAddr, addrVal, addrLen, rdU8, List.append_assoc, rdU16_put _ _ hwf.2.1, rdU32_put _ _ hwf.2.2]
+    | some id =>
+      simp [decAddr, addrVal, addrLen, rdU8, List.append_assoc, rdU16_put _ _ (xor_port_lt _ hwf.2.1),
+        rdU32_put _ _ (xor_ip_lt _ hwf.2.2), xor_cancel_nat]
+  | v6 bs =>
+    simp only at hwf
+    cases xid with
+    | none =>
+      have e := rdRaw_append bs rest
+      rw [hwf.2.2] at e
+      simp [decAddr, addrVal, addrLen, rdU8, List.append_assoc, rdU16_put _ _ hwf.2.1, e]
+    | some id =>
+      have hl : (xorBytes bs (xorPad id)).length = 16 := by
+        simp [xorBytes_length, xorPad_len id (hid id rfl), hwf.2.2]
+      have e := rdRaw_append (xorBytes bs (xorPad id)) rest
+      rw [hl] at e
+      have hc := xorBytes_self_cancel bs (xorPad id) (by rw [hwf.2.2, xorPad_len id (hid id rfl)])
+      simp [decAddr, addrVal, addrLen, rdU8, List.append_assoc, rdU16_put _ _ (xor_port_lt _ hwf.2.1), e, hc,
+        xor_cancel_nat]
+
+theorem encAddr_eq (ty : Nat) (a : Addr) (xid : Option Bytes) (hwf : a.WF) :
+    encAddr ty a xid = if a.port = 0 then [] else putU16 ty ++ putU16 (addrLen a) ++ addrVal a xid := by
+  unfold Addr.WF at hwf
+  unfold encAddr addrLen addrVal
+  split
+  · rfl
+  · cases hh : a.host with
+    | null => rw [hh] at hwf; contradiction
+    | v4 ip => cases xid <;> simp
+    | v6 bs => cases xid <;> simp
+
+/-- generic address step: `hstep` says which branch of `attrStep` the type `ty` takes -/
+theorem steps_addr (ty : Nat) (xid : Option Bytes) (x y : Msg) (a : Addr) (hwf : a.WF) (hty : ty < 65536)
+    (hid : ∀ id, xid = some id → id.length = 12)
+    (habsent : a = {} → y = x)
+    (hstep : ∀ (H : Bytes → Bytes) (buf key : Bytes) (done aLen : Nat) (s r : Bytes), decAddr aLen s xid = some (a, r) →
+      attrStep H buf key done ty aLen s x none = .next r y none) :
+    StepsTo (encAddr ty a xid) x y := by
+  rw [encAddr_eq ty a xid hwf]
+  split
+  · rename_i hp0
+    have ha : a = {} := by
+      unfold Addr.WF at hwf
+      obtain ⟨host, port⟩ := a
+      simp only at hp0; subst hp0
+      cases host <;> simp_all
+    rw [habsent ha]; exact StepsTo.nil x
+  · rename_i hp
+    have hal : (addrVal a xid).length = addrLen a + pad4 (addrLen a) := by
+      rw [addrVal_len a xid hwf hid]
+      unfold addrLen; cases a.host <;> simp [pad4]
+    refine steps_of_tlv ty (addrLen a) (addrVal a xid) x y hty hal ?_
+    intro H buf key done rest _
+    have hd : (addrVal a xid).drop (addrLen a) = [] := by
+      apply List.drop_of_length_le; rw [addrVal_len a xid hwf hid]; exact Nat.le_refl _
+    rw [hd, List.nil_append]
+    exact hstep H buf key done (addrLen a) _ rest (decAddr_addrVal a xid rest hwf hp hid)
+
+theorem steps_mapped (x : Msg) (a : Addr) (hwf : a.WF) (hx : x.mapped = {}) :
+    StepsTo (encAddr Stun.mappedAddress a none) x { x with mapped := a } :=
+  steps_addr _ none x _ a hwf (by decide) (by simp) (by intro h; rw [h, ← hx])
+    (by intro H buf key done aLen s r h; simp [attrStep, h])
+
+theorem steps_source (x : Msg) (a : Addr) (hwf : a.WF) (hx : x.source = {}) :
+    StepsTo (encAddr Stun.sourceAddress a none) x { x with source := a } :=
+  steps_addr _ none x _ a hwf (by decide) (by simp) (by intro h; rw [h, ← hx])
+    (by intro H buf key done aLen s r h; simp [attrStep, h])
+
+theorem steps_changed (x : Msg) (a : Addr) (hwf : a.WF) (hx : x.changed = {}) :
+    StepsTo (encAddr Stun.changedAddress a none) x { x with changed := a } :=
+  steps_addr _ none x _ a hwf (by decide) (by simp) (by intro h; rw [h, ← hx])
+    (by intro H buf key done aLen s r h; simp [attrStep, h])
+
+theorem steps_other (x : Msg) (a : Addr) (hwf : a.WF) (hx : x.other = {}) :
+    StepsTo (encAddr Stun.otherAddress a none) x { x with other := a } :=
+  steps_addr _ none x _ a hwf (by decide) (by simp) (by intro h; rw [h, ← hx])
+    (by intro H buf key done aLen s r h; simp [attrStep, h])
+
+theorem steps_xorMapped (x : Msg) (a : Addr) (hwf : a.WF) (hx : x.xorMapped = {}) (hid : x.id.length = 12) :
+    StepsTo (encAddr Stun.xorMappedAddress a (some x.id)) x { x with xorMapped := a } :=
+  steps_addr _ (some x.id) x _ a hwf (by decide) (by intro id h; cases h; exact hid) (by intro h; rw [h, ← hx])
+    (by intro H buf key done aLen s r h; simp [attrStep, h])
+
+theorem steps_xorPeer (x : Msg) (a : Addr) (hwf : a.WF) (hx : x.xorPeer = {}) (hid : x.id.length = 12) :
+    StepsTo (encAddr Stun.xorPeerAddress a (some x.id)) x { x with xorPeer := a } :=
+  steps_addr _ (some x.id) x _ a hwf (by decide) (by intro id h; cases h; exact hid) (by intro h; rw [h, ← hx])
+    (by intro H buf key done aLen s r h; simp [attrStep, h])
+
+theorem steps_xorRelayed (x : Msg) (a : Addr) (hwf : a.WF) (hx : x.xorRelayed = {}) (hid : x.id.length = 12) :
+    StepsTo (encAddr Stun.xorRelayedAddress a (some x.id)) x { x with xorRelayed := a } :=
+  steps_addr _ (some x.id) x _ a hwf (by decide) (by intro id h; cases h; exact hid) (by intro h; rw [h, ← hx])
+    (by intro H buf key done aLen s r h; simp [attrStep, h])
+
+/-- the message object after the header has been read -/
+def afterHeader (m : Msg) : Msg := { Msg.fresh with type := m.type, cookie := m.cookie, id := m.id }
+
+/-- the whole attribute section written by `encode` is consumed by the loop and rebuilds `view m` -/
+theorem steps_body (m : Msg) (h : WFMsg m) : StepsTo (body m) (afterHeader m) (view m) := by
+  have s := steps_mapped (afterHeader m) m.mapped h.mapped (by rfl)
+  have s := s.append (steps_changeRequest _ m.changeRequest h.changeRequest (by rfl))
+  have s := s.append (steps_source _ m.source h.source (by rfl))
+  have s := s.append (steps_changed _ m.changed h.changed (by rfl))
+  have s := s.append (steps_other _ m.other h.other (by rfl))
+  have s := s.append (steps_xorMapped _ m.xorMapped h.xorMapped (by rfl) h.id)
+  have s := s.append (steps_xorPeer _ m.xorPeer h.xorPeer (by rfl) h.id)
+  have s := s.append (steps_xorRelayed _ m.xorRelayed h.xorRelayed (by rfl) h.id)
+  have s := s.append (steps_error _ m h.errLo h.errHi h.errNone (by rfl) (by rfl))
+  have s := s.append (steps_priority _ m.priority h.priority (by rfl))
+  have s := s.append (steps_useCandidate _ m.useCandidate (by rfl))
+  have s := s.append (steps_channelNumber _ m.channelNumber h.channelNumber (by rfl))
+  have s := s.append (steps_data _ m.data (by rfl))
+  have s := s.append (steps_lifetime _ m.lifetime h.lifetime (by rfl))
+  have s := s.append (steps_nonce _ m.nonce (by rfl))
+  have s := s.append (steps_realm _ m.realm (by rfl))
+  have s := s.append (steps_requestedTransport _ m.requestedTransport h.requestedTransport (by rfl))
+  have s := s.append (steps_reservationToken _ m.reservationToken h.reservationToken (by rfl))
+  have s := s.append (steps_software _ m.software (by rfl))
+  have s := s.append (steps_username _ m.username (by rfl))
+  have s := s.append (steps_ice _ m h.iceControlling h.iceControlled (by rfl) (by rfl))
+  have e : ∀ y, StepsTo (body m) (afterHeader m) y → y = view m → StepsTo (body m) (afterHeader m) (view m) :=
+    fun y hy e => e ▸ hy
+  exact e _ s (by cases m; rfl)
+
+
+/-! ## the packet as a whole -/
+
+/-- header with length field `L`, followed by the attribute section of `m` -/
+def framed (m : Msg) (L : Nat) : Bytes := putU16 m.type ++ (putU16 L ++ (putU32 m.cookie ++ (m.id ++ body m)))
+
+theorem framed_len (m : Msg) (L : Nat) (hid : m.id.length = 12) : (framed m L).length = 20 + (body m).length := by
+  simp [framed, putU16_len, putU32_len, hid]; omega
+
+theorem setLen_framed (m : Msg) (L L' : Nat) (r : Bytes) : setLen (framed m L ++ r) L' = framed m L' ++ r := by
+  simp [setLen, framed, putU16]
+
+theorem plain_eq (m : Msg) (hid : m.id.length = 12) : plain m = framed m (body m).length := by
+  have e : header m ++ body m = framed m 0 := by simp [header, framed, List.append_assoc]
+  have := setLen_framed m 0 ((framed m 0).length - Stun.headerSize) []
+  simp only [List.append_nil] at this
+  rw [plain, e, this, framed_len m 0 hid]
+  simp [Stun.headerSize]
+
+theorem take_framed (m : Msg) (L : Nat) (r : Bytes) (hid : m.id.length = 12) :
+    (framed m L ++ r).take (Stun.headerSize + (body m).length) = framed m L := by
+  rw [List.take_append_of_le_length (by rw [framed_len m L hid]; simp [Stun.headerSize])]
+  apply List.take_of_length_le; rw [framed_len m L hid]; simp [Stun.headerSize]
+
+/-- decoding a packet that consists of a 20-byte header with the right length and a section `S` -/
+theorem decodeX_framed (H : Bytes → Bytes) (m : Msg) (L : Nat) (r key : Bytes) (ht : m.type < 65536)
+    (hc : m.cookie < 4294967296) (hid : m.id.length = 12) (hL : L < 65536) (hLr : L = (body m).length + r.length) :
+    decodeX H (framed m L ++ r) key = loop H (framed m L ++ r) key L 0 (body m ++ r) (afterHeader m) none := by
+  have hlen : (framed m L ++ r).length = 20 + L := by
+    rw [List.length_append, framed_len m L hid]; omega
+  have e := rdResize_append (zeros 12) m.id (body m ++ r)
+  rw [hid] at e
+  unfold decodeX decodeFrom
+  rw [hlen]
+  simp only [framed, List.append_assoc, rdU16_put _ _ ht, rdU16_put _ _ hL, rdU32_put _ _ hc]
+  simp [Stun.headerSize, Msg.fresh, Stun.idSize, zeros, afterHeader] at e ⊢
+  simp [e]
+  intro h; omega
+
+theorem crcCode_lt (bs : Bytes) : crcCode bs < 4294967296 := by
+  unfold crcCode; exact UInt32.toNat_lt _
+
+theorem fingerprintOf_lt (bs : Bytes) : fingerprintOf bs < 4294967296 :=
+  Nat.xor_lt_two_pow (n := 32) (crcCode_lt bs) (by decide)
+
+theorem attrStep_fp (H : Bytes → Bytes) (buf key : Bytes) (done aLen : Nat) (s : Bytes) (m : Msg) (mi : Option Nat) :
+    attrStep H buf key done Stun.fingerprint aLen s m mi = stepFP buf done aLen s m := by
+  unfold attrStep
+  simp only [Stun.fingerprint, Stun.priority, Stun.errorCode, Stun.useCandidate, Stun.channelNumber, Stun.dataAttr,
+    Stun.lifetime, Stun.nonce, Stun.realm, Stun.requestedTransport, Stun.reservationToken, Stun.software, Stun.username,
+    Stun.mappedAddress, Stun.changeRequest, Stun.sourceAddress, Stun.changedAddress, Stun.otherAddress,
+    Stun.xorMappedAddress, Stun.xorPeerAddress, Stun.xorRelayedAddress, Stun.messageIntegrity, Nat.reduceEqDiff,
+    if_false, if_true]
+
+theorem attrStep_mi (H : Bytes → Bytes) (buf key : Bytes) (done aLen : Nat) (s : Bytes) (m : Msg) (mi : Option Nat) :
+    attrStep H buf key done Stun.messageIntegrity aLen s m mi = stepMI H buf key done aLen s m := by
+  unfold attrStep
+  simp only [Stun.priority, Stun.errorCode, Stun.useCandidate, Stun.channelNumber, Stun.dataAttr,
+    Stun.lifetime, Stun.nonce, Stun.realm, Stun.requestedTransport, Stun.reservationToken, Stun.software, Stun.username,
+    Stun.mappedAddress, Stun.changeRequest, Stun.sourceAddress, Stun.changedAddress, Stun.otherAddress,
+    Stun.xorMappedAddress, Stun.xorPeerAddress, Stun.xorRelayedAddress, Stun.messageIntegrity, Nat.reduceEqDiff,
+    if_false, if_true]
+
+/-- the loop in front of a MESSAGE-INTEGRITY attribute whose value is the code's HMAC of the adjusted prefix -/
+theorem loop_mi (H : Bytes → Bytes) (buf key : Bytes) (len done : Nat) (mac rest : Bytes) (y : Msg) (hlt : done < len)
+    (hmac : mac = hmacCode H 64 key (setLen (buf.take (Stun.headerSize + done)) (done + Stun.miAdjust)))
+    (hl : mac.length = 20) :
+    loop H buf key len done (putU16 Stun.messageIntegrity ++ (putU16 20 ++ (mac ++ rest))) y none
+      = loop H buf key len (done + 24) rest y (some done) := by
+  rw [loop]
+  have e := rdRaw_append mac rest
+  rw [hl] at e
+  have hp : pad4 20 = 0 := by decide
+  simp only [hlt, dite_true, rdU16_put _ _ (show Stun.messageIntegrity < 65536 by decide),
+    rdU16_put _ _ (show 20 < 65536 by decide), Option.isSome_none, Bool.false_eq_true, false_and, if_false,
+    attrStep_mi, stepMI, e, ← hmac, ne_eq, not_true_eq_false, and_false, hp, Nat.add_zero, List.drop_zero]
+
+
+/-- the loop in front of a FINGERPRINT attribute whose value is the code's CRC of the adjusted prefix -/
+theorem loop_fp (H : Bytes → Bytes) (buf key : Bytes) (len done v : Nat) (rest : Bytes) (y : Msg) (mi : Option Nat)
+    (hlt : done < len)
+    (hv : v = fingerprintOf (setLen (buf.take (Stun.headerSize + done)) (done + Stun.fpAdjust))) :
+    loop H buf key len done (putU16 Stun.fingerprint ++ (putU16 4 ++ (putU32 v ++ rest))) y mi
+      = some ⟨y, mi, some done⟩ := by
+  rw [loop]
+  have hvl : v < 4294967296 := by rw [hv]; exact fingerprintOf_lt _
+  simp only [hlt, dite_true, rdU16_put _ _ (show Stun.fingerprint < 65536 by decide),
+    rdU16_put _ _ (show 4 < 65536 by decide), attrStep_fp, stepFP, rdU32_put _ _ hvl, ← hv, ne_eq, not_true_eq_false,
+    and_false, if_false]
+
+
+/-- the MESSAGE-INTEGRITY attribute `encode` appends under key `k` -/
+def miAttr (H : Bytes → Bytes) (m : Msg) (k : Bytes) : Bytes :=
+  putU16 Stun.messageIntegrity ++ (putU16 20 ++ hmacCode H 64 k (framed m ((body m).length + 24)))
+
+/-- the FINGERPRINT attribute `encode` appends to `pre` -/
+def fpAttr (pre : Bytes) : Bytes := putU16 Stun.fingerprint ++ (putU16 4 ++ putU32 (fingerprintOf pre))
+
+theorem hmacCode_len (H : Bytes → Bytes) (hH : ∀ x, (H x).length = 20) (B : Nat) (k t : Bytes) :
+    (hmacCode H B k t).length = 20 := by unfold hmacCode; exact hH _
+
+theorem miAttr_len (H : Bytes → Bytes) (hH : ∀ x, (H x).length = 20) (m : Msg) (k : Bytes) :
+    (miAttr H m k).length = 24 := by
+  simp [miAttr, putU16_len, hmacCode_len H hH]
+
+theorem fpAttr_len (pre : Bytes) : (fpAttr pre).length = 8 := by simp [fpAttr, putU16_len, putU32_len]
+
+/-- the four shapes of `encode`'s output -/
+theorem encode_nokey_nofp (H : Bytes → Bytes) (m : Msg) (hid : m.id.length = 12) :
+    encode H m [] false = framed m (body m).length := by
+  simp [encode, withFP, withMI, plain_eq m hid]
+
+theorem encode_nokey_fp (H : Bytes → Bytes) (m : Msg) (hid : m.id.length = 12) :
+    encode H m [] true = framed m ((body m).length + 8) ++ fpAttr (framed m ((body m).length + 8)) := by
+  have e := setLen_framed m (body m).length ((body m).length + 8) []
+  simp only [List.append_nil] at e
+  simp [encode, withFP, withMI, plain_eq m hid, fpInput, framed_len m _ hid, Stun.headerSize, Stun.fpAdjust, e, fpAttr]
+
+theorem encode_key_nofp (H : Bytes → Bytes) (hH : ∀ x, (H x).length = 20) (m : Msg) (k : Bytes) (hk : k ≠ [])
+    (hid : m.id.length = 12) :
+    encode H m k false = framed m ((body m).length + 24) ++ miAttr H m k := by
+  have e := setLen_framed m (body m).length ((body m).length + 24) []
+  simp only [List.append_nil] at e
+  simp [encode, withFP, withMI, hk, plain_eq m hid, miInput, framed_len m _ hid, Stun.headerSize, Stun.miAdjust, e, miAttr,
+    hmacCode_len H hH]
+
+theorem encode_key_fp (H : Bytes → Bytes) (hH : ∀ x, (H x).length = 20) (m : Msg) (k : Bytes) (hk : k ≠ [])
+    (hid : m.id.length = 12) :
+    encode H m k true = (framed m ((body m).length + 32) ++ miAttr H m k) ++
+      fpAttr (framed m ((body m).length + 32) ++ miAttr H m k) := by
+  have e1 := encode_key_nofp H hH m k hk hid
+  unfold encode at e1 ⊢
+  simp only [withFP, Bool.false_eq_true, if_false] at e1
+  have e := setLen_framed m ((body m).length + 24) ((body m).length + 32) (miAttr H m k)
+  have hl : (framed m ((body m).length + 24) ++ miAttr H m k).length - Stun.headerSize + Stun.fpAdjust = (body m).length + 32 := by
+    simp [framed_len m _ hid, miAttr_len H hH, Stun.headerSize, Stun.fpAdjust]; omega
+  simp only [withFP, if_true, e1, fpInput, hl, e, fpAttr, List.append_assoc]
+
+
+theorem take_all_append (a b : Bytes) (n : Nat) (h : n = a.length) : (a ++ b).take n = a := by
+  subst h; simp
+
+/-- decode ∘ encode with the verification trace -/
+theorem decodeX_encode (H : Bytes → Bytes) (hH : ∀ x, (H x).length = 20) (m : Msg) (h : WFMsg m) (k : Bytes) (fp : Bool) :
+    decodeX H (encode H m k fp) k =
+      some ⟨view m, if k = [] then none else some (body m).length,
+        if fp then some ((body m).length + (if k = [] then 0 else 24)) else none⟩ := by
+  have hsz := h.size
+  have hid := h.id
+  by_cases hk : k = []
+  · subst hk
+    cases fp with
+    | false =>
+      rw [encode_nokey_nofp H m hid]
+      have e := decodeX_framed H m (body m).length [] [] h.type h.cookie hid (by omega) (by simp)
+      simp only [List.append_nil] at e
+      rw [e]
+      have s := steps_body m h H (framed m (body m).length) [] (body m).length 0 [] (by omega) (by simp)
+      simp only [List.append_nil] at s
+      rw [s, loop_done _ _ _ _ _ _ _ _ (by omega)]
+      simp
+    | true =>
+      rw [encode_nokey_fp H m hid]
+      generalize hb : framed m ((body m).length + 8) ++ fpAttr (framed m ((body m).length + 8)) = buf
+      have e := decodeX_framed H m ((body m).length + 8) (fpAttr (framed m ((body m).length + 8))) [] h.type h.cookie hid
+        (by omega) (by rw [fpAttr_len])
+      rw [hb] at e
+      rw [e]
+      have s := steps_body m h H buf [] ((body m).length + 8) 0 (fpAttr (framed m ((body m).length + 8))) (by omega)
+        (by simp [fpAttr_len])
+      rw [s]
+      have hv : fingerprintOf (framed m ((body m).length + 8)) =
+          fingerprintOf (setLen (buf.take (Stun.headerSize + (0 + (body m).length))) (0 + (body m).length + Stun.fpAdjust)) := by
+        rw [← hb, Nat.zero_add, take_framed m _ _ hid]
+        have := setLen_framed m ((body m).length + 8) ((body m).length + Stun.fpAdjust) []
+        simp only [List.append_nil] at this
+        rw [this]; rfl
+      have l := loop_fp H buf [] ((body m).length + 8) (0 + (body m).length) _ [] (view m) none (by omega) hv
+      simp only [List.append_nil] at l
+      unfold fpAttr
+      rw [l]
+      simp
+  · cases fp with
+    | false =>
+      rw [encode_key_nofp H hH m k hk hid]
+      generalize hb : framed m ((body m).length + 24) ++ miAttr H m k = buf
+      have e := decodeX_framed H m ((body m).length + 24) (miAttr H m k) k h.type h.cookie hid
+        (by omega) (by rw [miAttr_len H hH])
+      rw [hb] at e
+      rw [e]
+      have s := steps_body m h H buf k ((body m).length + 24) 0 (miAttr H m k) (by omega) (by simp [miAttr_len H hH])
+      rw [s]
+      have hm : hmacCode H 64 k (framed m ((body m).length + 24)) =
+          hmacCode H 64 k (setLen (buf.take (Stun.headerSize + (0 + (body m).length))) (0 + (body m).length + Stun.miAdjust)) := by
+        rw [← hb, Nat.zero_add, take_framed m _ _ hid]
+        have := setLen_framed m ((body m).length + 24) ((body m).length + Stun.miAdjust) []
+        simp only [List.append_nil] at this
+        rw [this]; rfl
+      have l := loop_mi H buf k ((body m).length + 24) (0 + (body m).length) _ [] (view m) (by omega) hm
+        (hmacCode_len H hH _ _ _)
+      simp only [List.append_nil] at l
+      unfold miAttr
+      rw [l, loop_done _ _ _ _ _ _ _ _ (by omega)]
+      simp [hk]
+    | true =>
+      rw [encode_key_fp H hH m k hk hid]
+      generalize hb : (framed m ((body m).length + 32) ++ miAttr H m k) ++
+        fpAttr (framed m ((body m).length + 32) ++ miAttr H m k) = buf
+      have hb' : framed m ((body m).length + 32) ++ (miAttr H m k ++
+        fpAttr (framed m ((body m).length + 32) ++ miAttr H m k)) = buf := by rw [← hb, List.append_assoc]
+      have e := decodeX_framed H m ((body m).length + 32)
+        (miAttr H m k ++ fpAttr (framed m ((body m).length + 32) ++ miAttr H m k)) k h.type h.cookie hid
+        (by omega) (by simp [miAttr_len H hH, fpAttr_len])
+      rw [hb'] at e
+      rw [e]
+      have s := steps_body m h H buf k ((body m).length + 32) 0
+        (miAttr H m k ++ fpAttr (framed m ((body m).length + 32) ++ miAttr H m k)) (by omega)
+        (by simp [miAttr_len H hH, fpAttr_len])
+      rw [s]
+      have hm : hmacCode H 64 k (framed m ((body m).length + 24)) =
+          hmacCode H 64 k (setLen (buf.take (Stun.headerSize + (0 + (body m).length))) (0 + (body m).length + Stun.miAdjust)) := by
+        rw [← hb', Nat.zero_add, take_framed m _ _ hid]
+        have := setLen_framed m ((body m).length + 32) ((body m).length + Stun.miAdjust) []
+        simp only [List.append_nil] at this
+        rw [this]; rfl
+      have l := loop_mi H buf k ((body m).length + 32) (0 + (body m).length) _
+        (fpAttr (framed m ((body m).length + 32) ++ miAttr H m k)) (view m) (by omega) hm (hmacCode_len H hH _ _ _)
+      have hmi : miAttr H m k ++ fpAttr (framed m ((body m).length + 32) ++ miAttr H m k) =
+          putU16 Stun.messageIntegrity ++ (putU16 20 ++ (hmacCode H 64 k (framed m ((body m).length + 24)) ++
+            fpAttr (framed m ((body m).length + 32) ++ miAttr H m k))) := by
+        simp [miAttr, List.append_assoc]
+      rw [hmi, l]
+      have hv : fingerprintOf (framed m ((body m).length + 32) ++ miAttr H m k) =
+          fingerprintOf (setLen (buf.take (Stun.headerSize + (0 + (body m).length + 24)))
+            (0 + (body m).length + 24 + Stun.fpAdjust)) := by
+        rw [← hb, take_all_append _ _ _ (by simp [framed_len m _ hid, miAttr_len H hH, Stun.headerSize]; omega),
+          setLen_framed]
+        simp [Stun.fpAdjust]; 
+      have l2 := loop_fp H buf k ((body m).length + 32) (0 + (body m).length + 24) _ [] (view m) (some (0 + (body m).length))
+        (by omega) hv
+      simp only [List.append_nil] at l2
+      unfold fpAttr
+      rw [l2]
+      simp [hk]
+
+/-! ## what an accepting decode has verified -/
+
+theorem rdU8_snd (s : Bytes) : (rdU8 s).2 = s.drop 1 := by
+  cases s <;> rfl
+theorem rdU16_snd (s : Bytes) : (rdU16 s).2 = s.drop 2 := by
+  match s with
+  | [] => rfl
+  | [_] => rfl
+  | _ :: _ :: _ => rfl
+theorem rdU32_snd (s : Bytes) : (rdU32 s).2 = s.drop 4 := by
+  match s with
+  | [] => rfl
+  | [_] => rfl
+  | [_, _] => rfl
+  | [_, _, _] => rfl
+  | _ :: _ :: _ :: _ :: _ => rfl
+theorem rdRaw_snd (n : Nat) (s : Bytes) : (rdRaw n s).2 = s.drop n := rfl
+theorem rdResize_snd (o : Bytes) (n : Nat) (s : Bytes) : (rdResize o n s).2 = s.drop n := rfl
+
+def AddrOK (s : Bytes) (aLen : Nat) : Option (Addr × Bytes) → Prop
+  | some (_, r) => r = s.drop aLen
+  | none => True
+
+theorem decAddr_ok (aLen : Nat) (s : Bytes) (xid : Option Bytes) : AddrOK s aLen (decAddr aLen s xid) := by
+  unfold decAddr
+  cases xid <;>
+  · simp only []
+    repeat' split
+    all_goals simp_all [AddrOK, rdU8_snd, rdU16_snd, rdU32_snd, rdRaw_snd, List.drop_drop]
+
+/-- an ordinary attribute: fails, or goes on having consumed exactly `aLen` bytes (or whatever was left) and
+leaving `after_integrity` alone; it never ends the parse -/
+def Plain (s : Bytes) (aLen : Nat) (mi : Option Nat) : Step → Prop
+  | .fail => True
+  | .accept _ _ => False
+  | .next s' _ mi' => s' = s.drop aLen ∧ mi' = mi
+
+theorem stepU32_plain (set : Msg → Nat → Msg) (aLen : Nat) (s : Bytes) (m : Msg) (mi : Option Nat) :
+    Plain s aLen mi (stepU32 set aLen s m mi) := by
+  unfold stepU32; split <;> simp_all [Plain, rdU32_snd]
+theorem stepError_plain (aLen : Nat) (s : Bytes) (m : Msg) (mi : Option Nat) :
+    Plain s aLen mi (stepError aLen s m mi) := by
+  unfold stepError; split
+  · simp [Plain]
+  · simp only [Plain, rdRaw_snd, rdU8_snd, rdU16_snd, List.drop_drop, and_true]
+    congr 1; omega
+theorem stepFlag_plain (aLen : Nat) (s : Bytes) (m : Msg) (mi : Option Nat) :
+    Plain s aLen mi (stepFlag aLen s m mi) := by
+  unfold stepFlag; split <;> simp_all [Plain]
+theorem stepChannel_plain (aLen : Nat) (s : Bytes) (m : Msg) (mi : Option Nat) :
+    Plain s aLen mi (stepChannel aLen s m mi) := by
+  unfold stepChannel; split <;> simp_all [Plain, rdU16_snd, List.drop_drop]
+theorem stepTransport_plain (aLen : Nat) (s : Bytes) (m : Msg) (mi : Option Nat) :
+    Plain s aLen mi (stepTransport aLen s m mi) := by
+  unfold stepTransport; split <;> simp_all [Plain, rdU8_snd]
+theorem stepBlob_plain (old : Bytes) (set : Msg → Bytes → Msg) (aLen : Nat) (s : Bytes) (m : Msg) (mi : Option Nat) :
+    Plain s aLen mi (stepBlob old set aLen s m mi) := by
+  simp [stepBlob, Plain, rdResize_snd]
+theorem stepFixed8_plain (old : Bytes) (set : Msg → Bytes → Msg) (aLen : Nat) (s : Bytes) (m : Msg) (mi : Option Nat) :
+    Plain s aLen mi (stepFixed8 old set aLen s m mi) := by
+  unfold stepFixed8; split <;> simp_all [Plain, rdResize_snd]
+theorem stepStr_plain (set : Msg → Bytes → Msg) (aLen : Nat) (s : Bytes) (m : Msg) (mi : Option Nat) :
+    Plain s aLen mi (stepStr set aLen s m mi) := by
+  simp [stepStr, Plain, rdRaw_snd]
+theorem stepAddr_plain (xid : Option Bytes) (set : Msg → Addr → Msg) (aLen : Nat) (s : Bytes) (m : Msg) (mi : Option Nat) :
+    Plain s aLen mi (stepAddr xid set aLen s m mi) := by
+  have h := decAddr_ok aLen s xid
+  unfold stepAddr
+  cases hd : decAddr aLen s xid with
+  | none => simp [Plain]
+  | some r =>
+    rw [hd] at h
+    obtain ⟨a, r⟩ := r
+    simpa [Plain, AddrOK] using h
+
+theorem pred_ite (P : Step → Prop) (c : Prop) [Decidable c] (a b : Step) (ha : c → P a) (hb : ¬ c → P b) :
+    P (if c then a else b) := by
+  split
+  · exact ha ‹_›
+  · exact hb ‹_›
+
+/-- every attribute other than MESSAGE-INTEGRITY and FINGERPRINT is `Plain` -/
+theorem attrStep_plain (H : Bytes → Bytes) (buf key : Bytes) (done ty aLen : Nat) (s : Bytes) (m : Msg)
+    (mi : Option Nat) (hmi : ty ≠ Stun.messageIntegrity) (hfp : ty ≠ Stun.fingerprint) :
+    Plain s aLen mi (attrStep H buf key done ty aLen s m mi) := by
+  unfold attrStep
+  refine pred_ite _ _ _ _ (fun _ => stepU32_plain _ _ _ _ _) (fun _ => ?_)
+  refine pred_ite _ _ _ _ (fun _ => stepError_plain _ _ _ _) (fun _ => ?_)
+  refine pred_ite _ _ _ _ (fun _ => stepFlag_plain _ _ _ _) (fun _ => ?_)
+  refine pred_ite _ _ _ _ (fun _ => stepChannel_plain _ _ _ _) (fun _ => ?_)
+  refine pred_ite _ _ _ _ (fun _ => stepBlob_plain _ _ _ _ _ _) (fun _ => ?_)
+  refine pred_ite _ _ _ _ (fun _ => stepU32_plain _ _ _ _ _) (fun _ => ?_)
+  refine pred_ite _ _ _ _ (fun _ => stepBlob_plain _ _ _ _ _ _) (fun _ => ?_)
+  refine pred_ite _ _ _ _ (fun _ => stepStr_plain _ _ _ _ _) (fun _ => ?_)
+  refine pred_ite _ _ _ _ (fun _ => stepTransport_plain _ _ _ _) (fun _ => ?_)
+  refine pred_ite _ _ _ _ (fun _ => stepFixed8_plain _ _ _ _ _ _) (fun _ => ?_)
+  refine pred_ite _ _ _ _ (fun _ => stepStr_plain _ _ _ _ _) (fun _ => ?_)
+  refine pred_ite _ _ _ _ (fun _ => stepStr_plain _ _ _ _ _) (fun _ => ?_)
+  refine pred_ite _ _ _ _ (fun _ => stepAddr_plain _ _ _ _ _ _) (fun _ => ?_)
+  refine pred_ite _ _ _ _ (fun _ => stepU32_plain _ _ _ _ _) (fun _ => ?_)
+  refine pred_ite _ _ _ _ (fun _ => stepAddr_plain _ _ _ _ _ _) (fun _ => ?_)
+  refine pred_ite _ _ _ _ (fun _ => stepAddr_plain _ _ _ _ _ _) (fun _ => ?_)
+  refine pred_ite _ _ _ _ (fun _ => stepAddr_plain _ _ _ _ _ _) (fun _ => ?_)
+  refine pred_ite _ _ _ _ (fun _ => stepAddr_plain _ _ _ _ _ _) (fun _ => ?_)
+  refine pred_ite _ _ _ _ (fun _ => stepAddr_plain _ _ _ _ _ _) (fun _ => ?_)
+  refine pred_ite _ _ _ _ (fun _ => stepAddr_plain _ _ _ _ _ _) (fun _ => ?_)
+  refine pred_ite _ _ _ _ (fun h => absurd h hmi) (fun _ => ?_)
+  refine pred_ite _ _ _ _ (fun h => absurd h hfp) (fun _ => ?_)
+  refine pred_ite _ _ _ _ (fun _ => stepFixed8_plain _ _ _ _ _ _) (fun _ => ?_)
+  refine pred_ite _ _ _ _ (fun _ => stepFixed8_plain _ _ _ _ _ _) (fun _ => ?_)
+  exact ⟨rfl, rfl⟩
+
+/-- MESSAGE-INTEGRITY: goes on only with 20 bytes that equal the code's HMAC of the adjusted prefix (unless the key is empty) -/
+theorem stepMI_next (H : Bytes → Bytes) (buf key : Bytes) (done aLen : Nat) (s : Bytes) (m : Msg)
+    (s' : Bytes) (m' : Msg) (mi' : Option Nat) (h : stepMI H buf key done aLen s m = .next s' m' mi') :
+    aLen = 20 ∧ s' = s.drop aLen ∧ mi' = some done ∧
+      (key ≠ [] → (rdRaw 20 s).1 = hmacCode H 64 key (setLen (buf.take (Stun.headerSize + done)) (done + Stun.miAdjust))) := by
+  simp only [stepMI] at h
+  split at h
+  · contradiction
+  · rename_i h20
+    have h20 : aLen = 20 := by simpa using h20
+    split at h
+    · contradiction
+    · rename_i hc
+      simp only [Step.next.injEq] at h
+      refine ⟨h20, ?_, h.2.2.symm, ?_⟩
+      · rw [← h.1, h20]; rfl
+      · intro hk
+        by_cases he : (rdRaw 20 s).1 = hmacCode H 64 key (setLen (buf.take (Stun.headerSize + done)) (done + Stun.miAdjust))
+        · exact he
+        · exact absurd ⟨hk, he⟩ hc
+
+theorem stepMI_not_accept (H : Bytes → Bytes) (buf key : Bytes) (done aLen : Nat) (s : Bytes) (m m' : Msg) (d : Nat) :
+    stepMI H buf key done aLen s m ≠ .accept m' d := by
+  simp only [stepMI]
+  split
+  · simp
+  · split <;> simp
+
+/-- FINGERPRINT: never goes on; accepts only when the 32 bits equal the code's CRC of the adjusted prefix -/
+theorem stepFP_accept (buf : Bytes) (done aLen : Nat) (s : Bytes) (m m' : Msg) (d : Nat)
+    (h : stepFP buf done aLen s m = .accept m' d) :
+    d = done ∧ m' = m ∧
+      (rdU32 s).1 = fingerprintOf (setLen (buf.take (Stun.headerSize + done)) (done + Stun.fpAdjust)) := by
+  simp only [stepFP] at h
+  split at h
+  · contradiction
+  · split at h
+    · contradiction
+    · rename_i hc
+      simp only [Step.accept.injEq] at h
+      exact ⟨h.2.symm, h.1.symm, by simpa using hc⟩
+
+theorem stepFP_not_next (buf : Bytes) (done aLen : Nat) (s : Bytes) (m : Msg) (s' : Bytes) (m' : Msg) (mi' : Option Nat) :
+    stepFP buf done aLen s m ≠ .next s' m' mi' := by
+  simp only [stepFP]
+  split
+  · simp
+  · split <;> simp
+
+/-- what the loop guarantees about the trace it returns, given that the stream is the rest of the packet -/
+theorem loop_verified (H : Bytes → Bytes) (buf key : Bytes) (len : Nat) :
+    ∀ (n done : Nat) (s : Bytes) (m : Msg) (mi : Option Nat) (d : Decoded),
+      len - done = n → s = buf.drop (Stun.headerSize + done) → loop H buf key len done s m mi = some d →
+      (∀ off, d.miAt = some off → mi = some off ∨
+          (key ≠ [] → miValueAt buf off = hmacCode H 64 key (miInputAt buf off))) ∧
+      (∀ off, d.fpAt = some off → fpValueAt buf off = fingerprintOf (fpInputAt buf off)) := by
+  intro n
+  induction n using Nat.strongRecOn with
+  | ind n ih =>
+    intro done s m mi d hn hs h
+    rw [loop] at h
+    by_cases hlt : done < len
+    · simp only [hlt, dite_true] at h
+      have hs1 : (rdU16 (rdU16 s).2).2 = buf.drop (Stun.headerSize + done + 4) := by
+        rw [rdU16_snd, rdU16_snd, hs, List.drop_drop, List.drop_drop]
+      by_cases hskip : mi.isSome = true ∧ (rdU16 s).1 ≠ Stun.fingerprint
+      · rw [if_pos hskip] at h
+        have := ih (len - (done + (4 + (rdU16 (rdU16 s).2).1 + pad4 (rdU16 (rdU16 s).2).1))) (by omega) _ _ m mi d rfl
+          (by rw [hs1, List.drop_drop]; congr 1; simp only [Stun.headerSize]; omega) h
+        exact this
+      · rw [if_neg hskip] at h
+        cases hstep : attrStep H buf key done (rdU16 s).1 (rdU16 (rdU16 s).2).1 (rdU16 (rdU16 s).2).2 m mi with
+        | fail => rw [hstep] at h; simp at h
+        | accept m' d0 =>
+          rw [hstep] at h
+          simp only [Option.some.injEq] at h
+          subst h
+          refine ⟨fun off ho => Or.inl ho, fun off ho => ?_⟩
+          simp only [Option.some.injEq] at ho
+          by_cases hfp : (rdU16 s).1 = Stun.fingerprint
+          · rw [hfp, attrStep_fp] at hstep
+            obtain ⟨h1, _, h3⟩ := stepFP_accept _ _ _ _ _ _ _ hstep
+            subst ho; subst h1
+            rw [hs1] at h3
+            exact h3
+          · by_cases hmi : (rdU16 s).1 = Stun.messageIntegrity
+            · rw [hmi, attrStep_mi] at hstep
+              exact absurd hstep (stepMI_not_accept _ _ _ _ _ _ _ _ _)
+            · have := attrStep_plain H buf key done _ (rdU16 (rdU16 s).2).1 (rdU16 (rdU16 s).2).2 m mi hmi hfp
+              rw [hstep] at this
+              exact absurd this (by simp [Plain])
+        | next s' m' mi' =>
+          rw [hstep] at h
+          simp only at h
+          have hdrop : s' = (rdU16 (rdU16 s).2).2.drop (rdU16 (rdU16 s).2).1 ∧
+              (mi' = mi ∨ (mi' = some done ∧
+                (key ≠ [] → miValueAt buf done = hmacCode H 64 key (miInputAt buf done)))) := by
+            by_cases hfp : (rdU16 s).1 = Stun.fingerprint
+            · rw [hfp, attrStep_fp] at hstep
+              exact absurd hstep (stepFP_not_next _ _ _ _ _ _ _ _)
+            · by_cases hmi : (rdU16 s).1 = Stun.messageIntegrity
+              · rw [hmi, attrStep_mi] at hstep
+                obtain ⟨_, h2, h3, h4⟩ := stepMI_next _ _ _ _ _ _ _ _ _ _ hstep
+                refine ⟨h2, Or.inr ⟨h3, ?_⟩⟩
+                rw [hs1] at h4
+                exact h4
+              · have := attrStep_plain H buf key done _ (rdU16 (rdU16 s).2).1 (rdU16 (rdU16 s).2).2 m mi hmi hfp
+                rw [hstep] at this
+                exact ⟨this.1, Or.inl this.2⟩
+          have ih' := ih (len - (done + (4 + (rdU16 (rdU16 s).2).1 + pad4 (rdU16 (rdU16 s).2).1))) (by omega) _ _ m' mi' d rfl
+            (by rw [hdrop.1, hs1, List.drop_drop, List.drop_drop]; congr 1; simp only [Stun.headerSize]; omega) h
+          refine ⟨fun off ho => ?_, ih'.2⟩
+          rcases ih'.1 off ho with h1 | h1
+          · rcases hdrop.2 with h2 | ⟨h2, h3⟩
+            · left; rw [← h2]; exact h1
+            · right
+              rw [h2] at h1
+              simp only [Option.some.injEq] at h1
+              subst h1
+              exact h3
+          · exact Or.inr h1
+    · simp only [hlt, dite_false, Option.some.injEq] at h
+      subst h
+      exact ⟨fun off ho => Or.inl ho, fun off ho => by simp at ho⟩
+
+
+/-- an accepted packet: wherever the decoder met MESSAGE-INTEGRITY (under a non-empty key) the 20 bytes are the code's
+HMAC of the protected prefix; wherever it returned at FINGERPRINT the 32 bits are the code's CRC value -/
+theorem decodeX_verified (H : Bytes → Bytes) (buf key : Bytes) (d : Decoded) (h : decodeX H buf key = some d) :
+    (∀ off, d.miAt = some off → key ≠ [] → miValueAt buf off = hmacCode H 64 key (miInputAt buf off)) ∧
+    (∀ off, d.fpAt = some off → fpValueAt buf off = fingerprintOf (fpInputAt buf off)) := by
+  unfold decodeX decodeFrom at h
+  split at h
+  · contradiction
+  · simp only at h
+    split at h
+    · contradiction
+    · have hs : (rdResize Msg.fresh.id Msg.fresh.id.length (rdU32 (rdU16 (rdU16 buf).2).2).2).2
+          = buf.drop (Stun.headerSize + 0) := by
+        rw [rdResize_snd, rdU32_snd, rdU16_snd, rdU16_snd, List.drop_drop, List.drop_drop, List.drop_drop]
+        rfl
+      have := loop_verified H buf key _ _ 0 _ _ none d rfl hs h
+      refine ⟨fun off ho hk => ?_, this.2⟩
+      rcases this.1 off ho with h1 | h1
+      · simp at h1
+      · exact h1 hk
+
 end Qx.C14
